@@ -3,8 +3,12 @@
 // in a canonical line format that the extracted Coq model (build/bin/c02model) reads and answers:
 //
 //	P <dir>
-//	FLOW <A|B> <sink callee> <source line> <sink line>      reported flows (A = config.yaml; B, with -gt = the same problem without validator/sanitizer specs)
-//	F <fid> <function> <kind: s=summarised u=unsummarised>
+//	FLOW <A|B> <sink callee> <source line> <sink line> <source callee>
+//	                                    reported flows (A = real taint.Analyze on config.yaml, all problems merged; B, with -gt =
+//	                                    every problem re-run without its validator/sanitizer specs)
+//	STAT leaf_own=<n> leaf_oracle=<n>   validator/sanitizer leaf verdicts decided by the harness's own matcher / taken from the code
+//	F <fid> <function> <kind: s=summarised u=unsummarised>      fid = <taint problem index>.<function index>
+//	QS <site> <own verdict|?> / RS <site> = <0|1>   real isSanitizer(state, problem, call node / call argument node)
 //	B <idx> <id of the If condition value | -> | <successor indices>
 //	C <id> <cexpr>                      If conditions (Polish notation, see cexpr below)
 //	X <id> <vexpr>                      values used as call arguments in queries
@@ -31,8 +35,10 @@ import (
 	"go/types"
 	"os"
 	"path/filepath"
+	"regexp"
 	"sort"
 	"strings"
+	"time"
 
 	"github.com/awslabs/ar-go-tools/analysis"
 	"github.com/awslabs/ar-go-tools/analysis/config"
@@ -72,6 +78,39 @@ func calleeName(i ssa.Instruction) string {
 		return f.Name()
 	}
 	return c.Value.Name()
+}
+
+// ------------------------------------------------------------------------------------------------ own spec matcher
+
+var leafOwn, leafOracle int
+
+// ownMatch decides "the callee of this call matches one of the code identifiers" independently of the code under test,
+// for the simple form of specification (only package and method regexes) and statically resolved callees with a package.
+// ok=false: some identifier uses other fields or the callee is not static; the caller falls back to the real verdict.
+func ownMatch(cis []config.CodeIdentifier, call ssa.CallInstruction) (match bool, ok bool) {
+	cc := call.Common()
+	if cc.IsInvoke() {
+		return false, false
+	}
+	f := cc.StaticCallee()
+	if f == nil || f.Pkg == nil || f.Pkg.Pkg == nil {
+		return false, false
+	}
+	for _, ci := range cis {
+		if ci.Context != "" || ci.Interface != "" || ci.Receiver != "" || ci.Field != "" || ci.Type != "" || ci.Kind != "" ||
+			ci.ValueMatch != "" || (ci.Package == "" && ci.Method == "") {
+			return false, false
+		}
+		pr, err1 := regexp.Compile(ci.Package)
+		mr, err2 := regexp.Compile(ci.Method)
+		if err1 != nil || err2 != nil {
+			return false, false
+		}
+		if (ci.Package == "" || pr.MatchString(f.Pkg.Pkg.Path())) && (ci.Method == "" || mr.MatchString(f.Name())) {
+			match = true
+		}
+	}
+	return match, true
 }
 
 // ------------------------------------------------------------------------------------------------ translation
@@ -136,7 +175,14 @@ func (d *fnDump) cexpr(v ssa.Value, depth int) string {
 	}
 	switch x := v.(type) {
 	case *ssa.Call:
-		isVal := taint.IsMatchingCodeIDWithCallee(d.ts.IsValidator, nil, x)
+		// leaf verdict "the callee is a validator of THIS problem": the harness's own matcher where it applies
+		isVal, own := ownMatch(d.ts.Validators, x)
+		if own {
+			leafOwn++
+		} else {
+			leafOracle++
+			isVal = taint.IsMatchingCodeIDWithCallee(d.ts.IsValidator, nil, x)
+		}
 		var sig types.Type
 		if x.Call.IsInvoke() {
 			sig = x.Call.Method.Type()
@@ -269,7 +315,7 @@ func sourceInstr(n dataflow.GraphNode, f *ssa.Function, arg ssa.Value) (instr ss
 }
 
 func dumpFunction(w *bufio.Writer, r *rng, state *dataflow.AnalyzerState, ts *config.TaintSpec, fid string, f *ssa.Function,
-	sum *dataflow.SummaryGraph) {
+	sum *dataflow.SummaryGraph, paths bool) {
 	d := &fnDump{ts: ts, ids: map[ssa.Value]int{}, doneC: map[ssa.Value]bool{}, doneX: map[ssa.Value]bool{}}
 	kind := "u"
 	if sum != nil {
@@ -310,7 +356,9 @@ func dumpFunction(w *bufio.Writer, r *rng, state *dataflow.AnalyzerState, ts *co
 	n := len(f.Blocks)
 	type pair struct{ a, b int }
 	var pairs []pair
-	if n <= 12 {
+	if !paths {
+		// path queries do not depend on the taint problem: asked once per function
+	} else if n <= 12 {
 		for a := 0; a < n; a++ {
 			for b := 0; b < n; b++ {
 				pairs = append(pairs, pair{a, b})
@@ -416,6 +464,38 @@ func dumpFunction(w *bufio.Writer, r *rng, state *dataflow.AnalyzerState, ts *co
 			qlines = append(qlines, e.q, e.r)
 		}
 	}
+	// real isSanitizer verdict of every call node / call argument node for this problem vs the harness's own matcher
+	if sum != nil && !state.Config.UseEscapeAnalysis {
+		var slines []string
+		for call, callees := range sum.Callees {
+			if call.Parent() != f {
+				continue
+			}
+			own, ok := ownMatch(ts.Sanitizers, call)
+			ov := "?"
+			if ok {
+				ov = b2s(own)
+				leafOwn++
+			} else {
+				leafOracle++
+			}
+			for _, cn := range callees {
+				site := fmt.Sprintf("%d.%d.%s", call.Block().Index, instrIndex(call), calleeName(call))
+				slines = append(slines, fmt.Sprintf("QS %s.c %s\nRS %s.c = %s", site, ov, site, b2s(taint.VerifC02IsSanitizer(state, ts, cn))))
+				for _, an := range cn.Args() {
+					slines = append(slines, fmt.Sprintf("QS %s.%d %s\nRS %s.%d = %s", site, an.Index(), ov, site, an.Index(),
+						b2s(taint.VerifC02IsSanitizer(state, ts, an))))
+				}
+			}
+		}
+		sort.Strings(slines)
+		for i, l := range slines {
+			if i > 0 && slines[i-1] == l {
+				continue
+			}
+			qlines = append(qlines, strings.Split(l, "\n")...)
+		}
+	}
 	fmt.Fprintf(w, "F %s %s %s\n", fid, strings.ReplaceAll(f.String(), " ", "_"), kind)
 	for _, l := range blines {
 		fmt.Fprintln(w, l)
@@ -446,7 +526,7 @@ func printFlows(w *bufio.Writer, tag string, prog *ssa.Program, res taint.Analys
 		for source := range sources {
 			sp := prog.Fset.Position(source.Instr.Pos())
 			kp := prog.Fset.Position(sink.Instr.Pos())
-			lines[fmt.Sprintf("FLOW %s %s %d %d", tag, calleeName(sink.Instr), sp.Line, kp.Line)] = true
+			lines[fmt.Sprintf("FLOW %s %s %d %d %s", tag, calleeName(sink.Instr), sp.Line, kp.Line, calleeName(source.Instr))] = true
 		}
 	}
 	keys := make([]string, 0, len(lines))
@@ -469,7 +549,10 @@ func runDir(w *bufio.Writer, dir string) error {
 	if err != nil {
 		return fmt.Errorf("load: %v", err)
 	}
+	t0 := time.Now()
 	res, err := taint.Analyze(cfg, prog, pkgs)
+	tAnalyze := time.Since(t0)
+	t0 = time.Now()
 	fmt.Fprintf(w, "P %s\n", dir)
 	if err != nil {
 		fmt.Fprintf(w, "ERR %s\n", strings.ReplaceAll(err.Error(), "\n", " | "))
@@ -479,18 +562,19 @@ func runDir(w *bufio.Writer, dir string) error {
 	}
 	printFlows(w, "A", prog, res)
 	state := res.State
-	// the taint problems whose validator specs decide the dropped/kept verdicts
+	// every taint problem of the configuration (at most 4) decides its own dropped/kept and sanitizer verdicts
 	var specs []int
-	for i, ts := range state.Config.TaintTrackingProblems {
-		if len(ts.Validators) > 0 {
+	for i := range state.Config.TaintTrackingProblems {
+		if i < 4 {
 			specs = append(specs, i)
 		}
 	}
-	if len(specs) == 0 && len(state.Config.TaintTrackingProblems) > 0 {
-		specs = []int{0}
-	}
 	r := &rng{s: uint64(*seed)*2654435761 + 17}
 	fns := hutil.SortedFunctions(prog)
+	roots := map[string]bool{}
+	for _, p := range pkgs {
+		roots[p.PkgPath] = true
+	}
 	for _, pi := range specs {
 		ts := &state.Config.TaintTrackingProblems[pi]
 		budget := *maxFn
@@ -522,23 +606,36 @@ func runDir(w *bufio.Writer, dir string) error {
 			}
 			sum := state.FlowGraph.Summaries[f]
 			if sum != nil && sum.Constructed {
-				dumpFunction(w, r, state, ts, fmt.Sprintf("%d.%d", pi, k), f, sum)
+				if pi != specs[0] && !(f.Pkg != nil && roots[f.Pkg.Pkg.Path()]) {
+					continue // further problems: only the functions of the program's own packages (where the specs can differ)
+				}
+				dumpFunction(w, r, state, ts, fmt.Sprintf("%d.%d", pi, k), f, sum, pi == specs[0])
 			} else if chosen[k] && pi == specs[0] {
-				dumpFunction(w, r, state, ts, fmt.Sprintf("%d.%d", pi, k), f, nil)
+				dumpFunction(w, r, state, ts, fmt.Sprintf("%d.%d", pi, k), f, nil, true)
 			}
 		}
 	}
-	if *gt && len(state.Config.TaintTrackingProblems) > 0 {
-		// the same problem WITHOUT validator / sanitizer specs, on the same analyzer state (summaries do not depend on them):
+	fmt.Fprintf(w, "STAT leaf_own=%d leaf_oracle=%d analyze_ms=%d dump_ms=%d\n", leafOwn, leafOracle, tAnalyze.Milliseconds(),
+		time.Since(t0).Milliseconds())
+	if *gt {
+		// every problem WITHOUT its validator / sanitizer specs, on the same analyzer state (summaries do not depend on them):
 		// exactly what Analyze does for a further taint-tracking problem of the configuration
-		specB := state.Config.TaintTrackingProblems[0]
-		specB.Validators = nil
-		specB.Sanitizers = nil
-		visitor := taint.NewVisitor(&specB)
-		analysis.RunInterProcedural(state, visitor, analysis.InterProceduralParams{
-			IsEntrypoint: func(node ssa.Node) bool { return taint.IsSourceNode(state, &specB, node) },
-		})
-		printFlows(w, "B", prog, taint.AnalysisResult{TaintFlows: taint.VerifC02Flows(visitor)})
+		// (the specs are removed from the WHOLE configuration, so that B is the no-validator/no-sanitizer answer even if the code
+		// consults a configuration-wide oracle)
+		for i := range state.Config.TaintTrackingProblems {
+			state.Config.TaintTrackingProblems[i].Validators = nil
+			state.Config.TaintTrackingProblems[i].Sanitizers = nil
+		}
+		for i := range state.Config.TaintTrackingProblems {
+			specB := state.Config.TaintTrackingProblems[i]
+			specB.Validators = nil
+			specB.Sanitizers = nil
+			visitor := taint.NewVisitor(&specB)
+			analysis.RunInterProcedural(state, visitor, analysis.InterProceduralParams{
+				IsEntrypoint: func(node ssa.Node) bool { return taint.IsSourceNode(state, &specB, node) },
+			})
+			printFlows(w, "B", prog, taint.AnalysisResult{TaintFlows: taint.VerifC02Flows(visitor)})
+		}
 	}
 	return nil
 }
